@@ -188,7 +188,46 @@ def c01_specs(tier: str, kmode: str = "zero", terminals=T_FULL, soi_free: bool =
                         continue  # e.g. a repetition context around a nullable hole
                     starts.append((extra, start))
                 out.extend(batch_specs(starts, TRIVIA[tv] + HELPERS, ins, kmode, f"ctx({cname},hole<={hole_n},{tv})"))
+    return out + extra_specs(kmode, tier)
+
+
+def count_forms(top: int, zero: bool = True):
+    """Every bound spelling {m} {m,} {,n} {m,n} with counts up to top; with zero=True also the zero counts python-pest accepts."""
+    lo = 0 if zero else 1
+    out = [("exact", m) for m in range(lo, top + 1)] + [("min", m) for m in range(0, top + 1)] + [("max", n) for n in range(lo, top + 1)]
+    out += [("minmax", m, n) for n in range(lo, top + 1) for m in range(0, n + 1)]
     return out
+
+
+def extra_specs(kmode: str = "zero", tier: str = "quick"):
+    """Constructs the size-bounded enumeration cannot reach (added after seeded changes showed the gaps):
+    (1) counts: every repetition bound up to 3, zero counts included, over three operands in four contexts, normal and atomic, with and without whitespace;
+    (2) newline: every expression of <= 2 nodes over {NEWLINE, "a", "\n", ANY} on inputs over {a, \r, \n}, also with NEWLINE as implicit whitespace."""
+    out = []
+    cut = 1 if (kmode == "all" and tier == "quick") else 0   # every start position multiplies the work: one character shorter
+    operands = (S("a"), R("n"), ("grp", ("alt", (S("ab"), S("a")))))
+    for tv in ("none", "ws"):
+        starts = []
+        for e in operands:
+            for form in count_forms(3 if tier == "quick" else 4):
+                rep = (form[0], e) + tuple(form[1:])
+                for body in (rep, ("seq", (rep, S("a"))), ("seq", (rep, R("EOI"))), ("alt", (("seq", (rep, S("b"))), ("star", R("ANY"))))):
+                    for mod in ("", "@"):
+                        starts.append(((), (mod, body)))
+        sigma = SIGMA_CORE + TRIVIA_SIGMA[tv]
+        out.extend(batch_specs(starts, TRIVIA[tv] + HELPERS, inputs(sigma, (4 if tv == "none" else 3) - cut), kmode, f"counts({tv})"))
+    env = gast.Env(HELPERS)
+    terms = (R("NEWLINE"), S("a"), S("\n"), R("ANY"))
+    bodies = gast.exprs_upto(2 if tier == "quick" else 3, terms, gast.U_CORE, ("seq", "alt"), env)
+    nl_ws = (("WHITESPACE", "_", ("alt", (R("NEWLINE"), S(" ")))),)
+    for name, triv, sigma, L in (("none", (), "a\r\n", 4), ("nl_ws", nl_ws, "a\r\n ", 3)):
+        starts = [((), (m, b)) for b in bodies for m in ("", "@")]
+        out.extend(batch_specs(starts, triv + HELPERS, inputs(sigma, L - cut), kmode, f"newline({name})"))
+    return out
+
+
+EXTRA_RULE_TEXT = ("; plus (c) counts: every bound {m} {m,} {,n} {m,n} with counts 0..3 (zero counts included) over \"a\", n and (\"ab\"|\"a\"), alone / before \"a\" / before EOI / in an abandoned alternative, normal and atomic, without and with implicit whitespace; "
+                   "(d) newline: every expression with <= 2 nodes over {NEWLINE, \"a\", \"\\n\", ANY} on every string over {a, \\r, \\n} up to length 4, also with WHITESPACE = _{ NEWLINE | \" \" }")
 
 
 def c01_rule_text():
@@ -196,4 +235,4 @@ def c01_rule_text():
             "with ( ) ? * + {2} {1,} {,2} {1,2} & ! ~ |, x start-rule modifier x trivia configuration; "
             "(b) contexts: every hole expression placed at top level, left/right of a sequence, as an alternative that commits and is then abandoned ((HOLE ~ \"!\") | ANY*), under ? * + {2} {1,} {,2} {1,2} with the same abandon trick, "
             "under & ! !! , inside PUSH( ), after a pre-pushed stack entry, as the whole body of a rule called with one or two entries on the stack, and as the body of a _ @ $ ! rule called from a normal, an atomic and a compound parent (37 contexts); "
-            "x every string over {a,b,A}+trivia symbols up to the length bound; start rules are batched 40 per grammar and failing cases re-run on the isolated rule")
+            "x every string over {a,b,A}+trivia symbols up to the length bound; start rules are batched 40 per grammar and failing cases re-run on the isolated rule" + EXTRA_RULE_TEXT)
